@@ -233,6 +233,33 @@ def search(rep: C.Report, tier: str, broken):
             rep.violation("temperature derivative leaves [0,inf) or is inexact on T^3",
                           {"T": T, "scale": scale, "points": np.concatenate(pts).tolist(), "result": res},
                           finding_key="C19:derivT")
+    # WallGo's other call site: EffectivePotential packs (fields, T) into one array for gradient()/hessian().  A potential that is a polynomial of
+    # degree <= 4 in the fields and in T (the four-point stencils are exact on it up to rounding), at non-integer temperatures, with the field
+    # values given as floats AND as integers (Fields([2, 1]) is an integer array): same derivatives, equal to the closed forms
+    import models as _models
+    import WallGo as _WG
+    pot = _models.toy2_class()(D=0.1, E=0.06, lam=0.1, T0=1.0, a=3.0, ms2=0.5, ls=0.2, kap=0.3)
+    pot.configureDerivatives(_WG.VeffDerivativeSettings(temperatureVariationScale=0.5, fieldValueVariationScale=[0.5, 0.5]))
+    for Tq in (3.75, 0.5, 2.0, 1.3):
+        for xs_ in ([2, 1], [3, -2], [1, 0]):
+            for dt in (float, int, np.int32):
+                F = _WG.Fields(np.array([xs_], dtype=dt))
+                xf = np.array(xs_, dtype=float)
+                g_exact = pot.grad(xf, Tq)
+                h_exact = pot.hess(xf, Tq)
+                dT_exact = 2 * pot.D * Tq * xf[0] ** 2 - pot.E * xf[0] ** 3 - 4 * pot.a * Tq ** 3
+                dgT_exact = np.array([4 * pot.D * Tq * xf[0] - 3 * pot.E * xf[0] ** 2, 0.0])
+                got = {"derivField": (np.asarray(pot.derivField(F, Tq), dtype=float).ravel(), g_exact),
+                       "deriv2Field2": (np.asarray(pot.deriv2Field2(F, Tq), dtype=float).reshape(2, 2), h_exact),
+                       "deriv2FieldT": (np.asarray(pot.deriv2FieldT(F, Tq), dtype=float).ravel(), dgT_exact),
+                       "derivT": (np.asarray(pot.derivT(F, Tq), dtype=float).ravel(), np.array([dT_exact]))}
+                rep.case(key=("potential-derivatives", Tq, tuple(xs_), np.dtype(dt).name))
+                rep.count("EffectivePotential derivatives of a polynomial potential (float and integer field arrays)")
+                for nm_, (gv, ev) in got.items():
+                    if not np.max(np.abs(gv - ev)) <= 1e-6 * (1 + np.max(np.abs(ev))):
+                        rep.violation(f"EffectivePotential.{nm_} of a polynomial potential (degree <= 4) differs from the exact derivative",
+                                      {"potential": "toy2 (D=0.1,E=0.06,lam=0.1,a=3,ms2=0.5,ls=0.2,kap=0.3)", "fields": list(xs_), "fields_dtype": np.dtype(dt).name,
+                                       "T": Tq, "got": gv.tolist(), "exact": np.asarray(ev).tolist()}, finding_key=f"C19:potential:{nm_}")
     # shapes and axis selections for gradient / hessian
     shapes = [(3,), (2, 3), (4, 2, 3), (1, 1, 2)]
     for shp in shapes:
